@@ -275,15 +275,25 @@ static void cmp_zero(Type *ty) {
   case TY_FLOAT:
     println("  xorps %%xmm1, %%xmm1");
     println("  ucomiss %%xmm1, %%xmm0");
-    return;
+    break;
   case TY_DOUBLE:
     println("  xorpd %%xmm1, %%xmm1");
     println("  ucomisd %%xmm1, %%xmm0");
-    return;
+    break;
   case TY_LDOUBLE:
     println("  fldz");
     println("  fucomip");
     println("  fstp %%st(0)");
+    break;
+  }
+
+  if (is_flonum(ty)) {
+    // A NaN compares unordered (ZF=PF=1) but is not equal to zero.
+    // Leave ZF set only if the value really is zero.
+    println("  setne %%al");
+    println("  setp %%ah");
+    println("  or %%ah, %%al");
+    println("  cmp $0, %%al");
     return;
   }
 
@@ -1136,11 +1146,15 @@ static void gen_expr(Node *node) {
       println("  fcomip");
       println("  fstp %%st(0)");
 
-      if (node->kind == ND_EQ)
+      if (node->kind == ND_EQ) {
         println("  sete %%al");
-      else if (node->kind == ND_NE)
+        println("  setnp %%dl");
+        println("  and %%dl, %%al");
+      } else if (node->kind == ND_NE) {
         println("  setne %%al");
-      else if (node->kind == ND_LT)
+        println("  setp %%dl");
+        println("  or %%dl, %%al");
+      } else if (node->kind == ND_LT)
         println("  seta %%al");
       else
         println("  setae %%al");
